@@ -1125,7 +1125,9 @@ def _replace(string: str, replace_vars: Dict[str, str], default: Optional[str] =
         else:
             replacement = _replace(str(replacement), replace_vars, default)  # Nested replacements
 
-        # Use str.format to handle format specifiers
-        string = string.replace(var_expr, var_expr.format(**{var: replacement}))
+        # Use format to handle format specifiers (not str.format on var_expr: names like {0} would be taken as
+        # positional arguments)
+        format_spec = match.group(2)[1:] if match.group(2) else ""
+        string = string.replace(var_expr, format(replacement, format_spec))
 
     return string
